@@ -55,6 +55,9 @@ def main(argv):
                 harness_errors.append(dict(run_index=index, run_seed=rs,
                                            error='same plan, same interpreter, different digest/verdict'))
         agg.update(res.stats)
+        for k, v in res.stats.items():
+            if k.startswith('known:'):
+                known_hits[k[len('known:'):]] += v
         agg['ops'] += res.nops
         states |= res.states
         if job.get('want_digests'):
